@@ -94,12 +94,111 @@ pub fn check_against_region(data: &[u32], w: i32, h: i32, reg: &Region, margin: 
 /// the polyline that gets stroked: the path itself, or its flattening with the stroker's tolerance
 /// (0.1 device pixels, scaled by the transform) when it has curves
 pub fn stroke_polyline(path: &Path, t: &Transform) -> Vec<Sub> {
+    let path = &straighten_axis_aligned_curves(path);
     if has_curves(path) {
         let tol = 0.1 / t.determinant().abs().sqrt();
         subpaths(&path.flatten(tol), 1)
     } else {
         subpaths(path, 1)
     }
+}
+
+/// A curve whose points all share one x or one y is a walk along a straight line: from its start to its
+/// turning points (where it runs beyond an end point and comes back) to its end. Known in closed form,
+/// so such curves are judged without flatten().
+fn straighten_axis_aligned_curves(path: &Path) -> Path {
+    let mut ops = Vec::new();
+    let mut cur: Option<Point> = None;
+    let mut start: Option<Point> = None;
+    // positions of the turning points of the 1-D Bezier with the given coordinates, in order of t
+    let turning = |c: &[f64]| -> Vec<f64> {
+        let mut ts: Vec<f64> = Vec::new();
+        if c.len() == 3 {
+            let den = c[0] - 2. * c[1] + c[2];
+            if den != 0. {
+                ts.push((c[0] - c[1]) / den);
+            }
+        } else {
+            let (d0, d1, d2) = (c[1] - c[0], c[2] - c[1], c[3] - c[2]);
+            let (qa, qb, qc) = (d0 - 2. * d1 + d2, 2. * (d1 - d0), d0);
+            if qa.abs() < 1e-12 {
+                if qb != 0. {
+                    ts.push(-qc / qb);
+                }
+            } else {
+                let disc = qb * qb - 4. * qa * qc;
+                if disc > 0. {
+                    let r = disc.sqrt();
+                    ts.push((-qb - r) / (2. * qa));
+                    ts.push((-qb + r) / (2. * qa));
+                }
+            }
+        }
+        ts.retain(|t| *t > 0. && *t < 1.);
+        ts.sort_by(|a, b| a.partial_cmp(b).unwrap());
+        ts.iter()
+            .map(|t| {
+                let u = 1. - t;
+                if c.len() == 3 {
+                    u * u * c[0] + 2. * u * t * c[1] + t * t * c[2]
+                } else {
+                    u * u * u * c[0] + 3. * u * u * t * c[1] + 3. * u * t * t * c[2] + t * t * t * c[3]
+                }
+            })
+            .collect()
+    };
+    for op in &path.ops {
+        match *op {
+            PathOp::MoveTo(p) => {
+                cur = Some(p);
+                start = Some(p);
+                ops.push(*op);
+            }
+            PathOp::LineTo(p) => {
+                if cur.is_none() {
+                    start = Some(p);
+                }
+                cur = Some(p);
+                ops.push(*op);
+            }
+            PathOp::Close => {
+                cur = start;
+                ops.push(*op);
+            }
+            PathOp::QuadTo(..) | PathOp::CubicTo(..) => {
+                let (ctrl, end): (Vec<Point>, Point) = match *op {
+                    PathOp::QuadTo(c, p) => (vec![c], p),
+                    PathOp::CubicTo(c1, c2, p) => (vec![c1, c2], p),
+                    _ => unreachable!(),
+                };
+                let from = match cur {
+                    Some(f) => f,
+                    None => {
+                        ops.push(*op);
+                        cur = Some(end);
+                        start = Some(ctrl[0]);
+                        continue;
+                    }
+                };
+                let mut all = vec![from];
+                all.extend(ctrl.iter().cloned());
+                all.push(end);
+                let same_y = all.iter().all(|q| q.y == from.y);
+                let same_x = all.iter().all(|q| q.x == from.x);
+                if same_y || same_x {
+                    let coords: Vec<f64> = all.iter().map(|q| if same_y { q.x as f64 } else { q.y as f64 }).collect();
+                    for v in turning(&coords) {
+                        ops.push(PathOp::LineTo(if same_y { Point::new(v as f32, from.y) } else { Point::new(from.x, v as f32) }));
+                    }
+                    ops.push(PathOp::LineTo(end));
+                } else {
+                    ops.push(*op);
+                }
+                cur = Some(end);
+            }
+        }
+    }
+    Path { ops, winding: path.winding }
 }
 
 fn has_curves(p: &Path) -> bool {
@@ -169,13 +268,29 @@ fn gen_polyline_path(rng: &mut Rng, w: i32, h: i32, curves: bool, min_seg: f64) 
             continue;
         }
         ops.push(PathOp::MoveTo(Point::new(pts[0].x as f32, pts[0].y as f32)));
+        let mut prev = Point::new(pts[0].x as f32, pts[0].y as f32);
         for i in 1..pts.len() {
-            let p = Point::new(pts[i].x as f32, pts[i].y as f32);
+            let mut p = Point::new(pts[i].x as f32, pts[i].y as f32);
             // a repeated vertex (zero-length segment) changes nothing
             if rng.chance(0.05) {
-                ops.push(PathOp::LineTo(Point::new(pts[i - 1].x as f32, pts[i - 1].y as f32)));
+                ops.push(PathOp::LineTo(prev));
             }
-            if curves && rng.chance(0.5) {
+            if curves && rng.chance(0.1) && (p.x - prev.x).abs() > 1. && (p.y - prev.y).abs() > 1. {
+                // control points exactly on the (horizontal or vertical) line through the end points, inside
+                // or beyond them: the curve runs past an end point and comes back
+                let horizontal = rng.chance(0.5);
+                if horizontal { p.y = prev.y } else { p.x = prev.x }
+                let mut ctrl = |rng: &mut Rng| -> Point {
+                    let k = *rng.pick(&[-1.0f32, -0.5, 0.25, 0.5, 1.5, 2.0, 3.0]);
+                    if horizontal { Point::new(prev.x + (p.x - prev.x) * k, prev.y) } else { Point::new(prev.x, prev.y + (p.y - prev.y) * k) }
+                };
+                if rng.chance(0.6) {
+                    ops.push(PathOp::QuadTo(ctrl(rng), p));
+                } else {
+                    let (c1, c2) = (ctrl(rng), ctrl(rng));
+                    ops.push(PathOp::CubicTo(c1, c2, p));
+                }
+            } else if curves && rng.chance(0.5) {
                 let c = Point::new(rng.range(-2., wf + 2.) as f32, rng.range(-2., hf + 2.) as f32);
                 if rng.chance(0.5) {
                     ops.push(PathOp::QuadTo(c, p));
@@ -186,6 +301,7 @@ fn gen_polyline_path(rng: &mut Rng, w: i32, h: i32, curves: bool, min_seg: f64) 
             } else {
                 ops.push(PathOp::LineTo(p));
             }
+            prev = p;
         }
         if rng.chance(0.4) {
             // now and then the subpath returns to its start explicitly before closing
@@ -195,7 +311,8 @@ fn gen_polyline_path(rng: &mut Rng, w: i32, h: i32, curves: bool, min_seg: f64) 
             ops.push(PathOp::Close);
         }
     }
-    Path { ops, winding: Winding::NonZero }
+    // the winding rule of a stroked path must not matter
+    Path { ops, winding: if rng.chance(0.4) { Winding::EvenOdd } else { Winding::NonZero } }
 }
 
 /// curves whose flattening would make cusps or near-cusps are not assertable
